@@ -122,6 +122,19 @@ class ProgramTransformer(_ast.Transformer):
             self.__head = head
         return literal
 
+    def visit_External(self, ext):
+        """
+        The atom of an external statement is introduced like a head atom: it
+        must not refer to the past (or future).
+        """
+        try:
+            self.__head = True
+            ext.atom = self.visit(ext.atom)
+        finally:
+            self.__head = False
+        ext.body = self.visit(ext.body)
+        return ext
+
     def visit_SymbolicAtom(self, atom):
         """
         Rewrites the given symbolic atom appending a time parameter.
